@@ -47,18 +47,30 @@ def apply_op(U, op, letters):
             vals = build.with_memory_layout(vals, ad.get("mem") or ("F" if len(letters[role]) % 2 else "T"))
         return fd.FlodymArray(dims=build.dimset(uu, letters[role]), values=vals)
 
+    def after(*srcs):
+        # the caller goes on working with the source: it is updated in place after the result was taken; whether
+        # the result follows or not, it must do the same for every storage order of the source
+        how = op.get("touch_src")
+        for a in srcs if how else ():
+            if how == "values":
+                a.values[...] = a.values * 3.0 + 1.0
+            else:
+                a[...] = a * 3.0 + 1.0
+
     if k == "bin":
         x, y = arr("x"), arr("y")
         o = op["op"]
         from props.c01_arith import apply_flodym
 
         res = apply_flodym(o, x, y)
+        after(x, y)
         exp_order = m_inter(letters["x"], letters["y"]) if o in ("+", "-", "min", "max") else (m_union(letters["x"], letters["y"]) if o in "*/" else letters["x"])
         rule = None if list(res.dims.letters) == list(exp_order) else f"result order {res.dims.letters}, rule says {exp_order}"
         return MArr.from_flodym(res), rule
     if k == "unary":
         x = arr("x")
         res = {"neg": lambda: -x, "abs": lambda: abs(x), "sign": lambda: x.sign()}[op["op"]]()
+        after(x)
         rule = None if list(res.dims.letters) == list(letters["x"]) else "unary result order"
         return MArr.from_flodym(res), rule
     if k == "setall":
@@ -91,6 +103,7 @@ def apply_op(U, op, letters):
     if k == "getslice":
         x = arr("x")
         res = x[make_key(U, op["sel"], op["syntax"])]
+        after(x)
         rl, _, _ = region(U, letters["x"], op["sel"])
         rule = None if list(res.dims.letters) == list(rl) else f"slice order {res.dims.letters} vs {rl}"
         return MArr.from_flodym(res), rule
@@ -107,6 +120,7 @@ def apply_op(U, op, letters):
             res, exp = x.get_shares_over(tuple(d)), list(letters["x"])
         else:
             res, exp = x.cast_to(build.dimset(U, d)), list(d)
+        after(x)
         rule = None if list(res.dims.letters) == exp else f"{k} order {res.dims.letters} vs {exp}"
         return MArr.from_flodym(res), rule
     if k == "to_df":
@@ -137,6 +151,7 @@ def apply_op(U, op, letters):
     if k == "split":
         x = arr("x")
         parts = x.split(op["dims"][0])
+        after(x)
         return {str(it): MArr.from_flodym(p) for it, p in parts.items()}, None
     if k == "stack":
         from flodym.flodym_array_helper import flodym_array_stack
@@ -145,6 +160,7 @@ def apply_op(U, op, letters):
         a0 = arr("x")
         a1 = arr("x", tag="y")
         res = flodym_array_stack([a0, a1], newd)
+        after(a0, a1)
         rule = None if list(res.dims.letters) == list(letters["x"]) + ["S"] else "stack order"
         return MArr.from_flodym(res), rule
     if k == "lifetime":
@@ -316,6 +332,8 @@ def cases(draw, max_dims=4, max_len=3):
             op["prms"][n] = role
         op["via"] = draw(st.sampled_from(["ctor", "ctor", "set_prms"]))
         op["touch"] = draw(st.sampled_from([None, None, "values", "setitem"]))
+    if kind in ("bin", "unary", "getslice", "sum_to", "sum_over", "cumsum", "shares", "cast_to", "split", "stack"):
+        op["touch_src"] = draw(st.sampled_from([None, None, None, "values", "setitem"]))
     perms = {}
     for role, a in A.items():
         if len(a["letters"]) > 1:
